@@ -345,7 +345,11 @@ mod inner {
         // `Dispatch` it is now reachable through.
         dispatcher.collector().on_register_dispatch(dispatcher);
 
-        rebuild_interest(dispatcher);
+        // Without `std` the only dispatcher that ever receives spans and events
+        // is the global default. A `Dispatch` that has merely been created must
+        // not change the cached interests or the max level (it may never be
+        // installed); `set_global_default` re-evaluates them when a dispatcher
+        // actually becomes the global default.
     }
 
     fn rebuild_interest(dispatcher: &Dispatch) {
